@@ -126,11 +126,16 @@ def body(scn):
 N_EDGE = {"quick": 96, "thorough": 1500}
 
 
+ADV_EXCLUDE = ()
+
+
 def plan(tier):
-    return [("runs", 16), ("logedge", 8)]
+    return [("runs", 16), ("logedge", 8), ("advopts", 16)]
 
 
 def run_part(res, part, tier, seed, shard, nshards):
+    if part == "advopts":
+        return runlevel.adv_sweep(res, PROFILE, tier, seed, shard, nshards, body, exclude=ADV_EXCLUDE)
     if part == "logedge":
         return runlevel.sweep(res, scenario.logedge_profile(), N_EDGE[tier], seed + 17, shard, nshards, body)
     runlevel.sweep(res, PROFILE if tier == "quick" else PROFILE_T, N[tier], seed, shard, nshards, body)
